@@ -156,6 +156,15 @@ def c05(tier, seed):
     book_gen(ck, "gen_ties_api_reload", Ops=["create", "place", "event", "cancel", "reload", "disable", "enable"], Dts=[0], Discipline=False,
              Kinds=["L"], Prices=[10], Vols=[1, 2], MaxOrders=3, MaxOps=5 if q else 6, trunc_every=0,
              need=("op_reload", "dt0", "has_trade"), timeout=300 if q else 1500)
+    # a simulation step that carries more instructions than the step size has time units: intra-step timestamps
+    # run into the next step and the clock steps back at the end of the step
+    env_gen(ck, "gen_env_overflow", kind="env", seeds=8 if q else 32, StepSize=1, Ops=["new", "cancel", "step"], Kinds=["L", "M"], Prices=[10],
+            Vols=[1, 2], MaxSubmits=4, MaxBatch=2, MaxSteps=2 if q else 3, MaxOrders=4,
+            need=("batch_exceeds_step_size", "has_trade", "multi_step"), timeout=400 if q else 1800)
+    if not q:
+        env_gen(ck, "gen_env_overflow3", kind="env", seeds=32, StepSize=2, Ops=["new", "cancel", "step"], Kinds=["L"], Prices=[10],
+                Vols=[1], MaxSubmits=5, MaxBatch=3, MaxSteps=2, MaxOrders=5,
+                need=("batch_exceeds_step_size", "has_trade", "multi_step"), timeout=1800)
     prof = {"discipline": False, "p_tie": 0.5, "nprices": 6, "audit_every": 25, "w": {"modify": 4, "reload": 0.5, "toggle": 0.3}}
     ck.traces_stage("rand_ties", "record_book", prof, files=8 if q else 64, runs=2 if q else 4, ops=300)
     return ck.finish("model_checking", LEVEL_TEXT, RULE + "queueing calls made without advancing the clock",
@@ -211,6 +220,19 @@ def c12(tier, seed):
     book_gen(ck, "gen_modify_grid", cfg=GEN, Ops=["cap", "modify"], Tick=2, Prices=[10, 12], Vols=[1, 2], Kinds=["L"],
              ModPrices=[-1, 10, 11, 12, 13], ModVols=["none", "larger"], MaxOrders=2 if q else 3, MaxOps=4 if q else 5,
              need=("op_modify",), timeout=300 if q else 1500)
+    # the largest representable price as an explicit limit (2^32 - 1 is off the grid of tick 2)
+    book_gen(ck, "gen_create_max", cfg=GEN, Ops=["cap", "create", "place"], Tick=2, Prices=[10, MAXPRICE], Vols=[1], MaxOrders=3,
+             MaxOps=3 if q else 4, need=("create_rejected",), timeout=300)
+    # through the multi-asset market (per-asset tick sizes) and through the environments (queued creations)
+    mkt_gen(ck, "gen_market_grid", Ticks=(2, 3), Ops=["cap", "create", "place", "cancel"], Kinds=["L"], Prices=[9, 10, 12], Vols=[1],
+            MaxOrders=2, MaxOps=3 if q else 4, need=("create_rejected", "ops_on_two_assets"), timeout=300 if q else 1500)
+    env_gen(ck, "gen_env_grid", kind="env", seeds=4, Ticks=(2,), Ops=["new", "cancel", "step"], Kinds=["L"], Prices=[10, 11], Vols=[1],
+            MaxSubmits=4, MaxBatch=3, MaxSteps=2, MaxOrders=3, need=("create_rejected", "has_trade", "has_cancel"), timeout=300 if q else 1500)
+    env_gen(ck, "gen_menv_grid", kind="menv", seeds=4, Ticks=(2, 3), Ops=["new", "step"], Kinds=["L"], Prices=[9, 10], Vols=[1],
+            MaxSubmits=3, MaxBatch=3, MaxSteps=2, MaxOrders=2, need=("create_rejected",), timeout=300 if q else 1500)
+    # queued modify instructions with arbitrary new prices (known finding F3 lives here)
+    env_gen(ck, "gen_env_grid_modify", kind="env", seeds=2, Ticks=(2,), Ops=["new", "modify", "step"], Kinds=["L"], Prices=[10], Vols=[1],
+            ModPrices=[12, 13], ModVolsAbs=[-1], MaxSubmits=3, MaxBatch=3, MaxSteps=2, MaxOrders=2, need=("has_modify",), timeout=300)
     prof = {"discipline": True, "audit_every": 5, "p_offgrid": 0.3, "ticks": [2, 3, 4, 5, 6, 7, 8, 9, 10], "w": {"modify": 4, "create": 4}}
     ck.traces_stage("rand_grid", "record_book", prof, files=8 if q else 64, runs=2 if q else 4, ops=300)
     # arbitrary new prices in modify requests (known finding F3 lives here)
@@ -232,13 +254,131 @@ def c13(tier, seed):
              timeout=300 if q else 1500)
     book_gen(ck, "gen_toggle_off0", Ops=["cap", "cancel", "enable", "disable"], Trading0=False, Prices=[10, 11, 12], Vols=[1, 2],
              MaxOrders=3, MaxOps=4 if q else 5, need=("crossed", "has_trade"), timeout=300 if q else 1500)
+    # market and environment level
+    mkt_gen(ck, "gen_market_toggle", Ticks=(1, 1), Ops=["cap", "modify", "disable", "enable"], Kinds=["L", "M"], Prices=[10, 11], Vols=[1],
+            ModPrices=[10, 11], ModVolsAbs=[-1], MaxOrders=2, MaxOps=4, need=("trading_toggled", "has_trade"), timeout=300 if q else 1500)
+    env_gen(ck, "gen_env_toggle", kind="env", seeds=4 if q else 16, Ops=["new", "modify", "step", "disable", "enable"], Kinds=["L", "M"],
+            Prices=[10, 11], Vols=[1], ModPrices=[10, 11], ModVolsAbs=[-1], MaxSubmits=3, MaxBatch=2, MaxSteps=2, MaxOrders=2,
+            need=("trading_toggled", "has_trade", "has_modify"), timeout=300 if q else 1500)
     prof = {"discipline": True, "audit_every": 25, "nprices": 6, "trading0": [True, False], "w": {"toggle": 2.5, "modify": 4}}
     ck.traces_stage("rand_toggle", "record_book", prof, files=8 if q else 64, runs=2 if q else 4, ops=300)
     return ck.finish("model_checking", LEVEL_TEXT, RULE + "generated histories ending with trading off / recorded crossed states",
                      ("gen_toggle.trading_off", "gen_toggle_off0.crossed", "rand_toggle.crossed_states"))
 
 
-CHECKS = {"C01": c01, "C02": c02, "C03": c03, "C04": c04, "C05": c05, "C06": c06, "C07": c07, "C12": c12, "C13": c13}
+# ---------------------------------------------------------------------------------------------
+# environments and markets
+ENV_GEN = ("INIT GInit", "NEXT GNext", "INVARIANT Emit", "INVARIANT Inv_C10_L2AsOfLastStep", "INVARIANT Inv_C11_Records",
+           "INVARIANT Inv_C14_SharedClock")
+
+
+def ec(**kw):
+    c = dict(MaxPrice=MAXPRICE, Ticks=(1,), StepSize=10, NLevels=2, Trading0=True, Ops=["new", "cancel", "step"],
+             Sides=["B", "A"], Kinds=["L", "M"], Prices=[10, 11], Vols=[2], Traders=[3], ModPrices=[-1], ModVolsAbs=[-1],
+             MaxSubmits=3, MaxBatch=3, MaxSteps=2, MaxOrders=3)
+    c.update(kw)
+    return c
+
+
+def env_gen(ck, name, kind="env", seeds=8, need=(), timeout=600, workers=12, **kw):
+    c = ec(**kw)
+    rargs = ["--kind", kind, "--levels", c["NLevels"], "--ticks", ",".join(str(t) for t in c["Ticks"]), "--step", c["StepSize"],
+             "--trading", "true" if c["Trading0"] else "false", "--seeds", seeds, "--base-seed", ck.seed]
+    return ck.gen(name, "EnvGen", c, "replay_env", rargs, cfg=ENV_GEN, need=need, timeout=timeout, workers=workers)
+
+
+def mc_(**kw):
+    c = dict(MaxPrice=MAXPRICE, Ticks=(1, 2), NLevels=2, Trading0=True, Ops=["cap", "cancel"], Sides=["B", "A"], Kinds=["L", "M"],
+             Prices=[10, 12], Vols=[2], Traders=[3], ModPrices=[-1], ModVolsAbs=[-1], MaxOrders=2, MaxOps=4)
+    c.update(kw)
+    return c
+
+
+MKT_GEN = ("INIT GInit", "NEXT GNext", "INVARIANT Emit", "INVARIANT Inv_C14_SharedClock", "PROPERTY Act_C14_Independent")
+
+
+def mkt_gen(ck, name, need=(), timeout=600, workers=12, trunc_every=0, **kw):
+    c = mc_(**kw)
+    rargs = ["--levels", c["NLevels"], "--ticks", ",".join(str(t) for t in c["Ticks"]),
+             "--trading", "true" if c["Trading0"] else "false", "--trunc-every", trunc_every]
+    return ck.gen(name, "MarketGen", c, "replay_market", rargs, cfg=MKT_GEN, need=need, timeout=timeout, workers=workers)
+
+
+ENV_RULE = ("paths: every sequence of submissions / steps / toggles of the bounded generator configs; for each path TLC emits the "
+            "complete set of (schedule, outcome) pairs the specification allows and the real environment is run on it under several "
+            "seeds (outcome must be a member; must equal the outcome of the schedule reported by the hook); non-trivial = ")
+
+
+def c08(tier, seed):
+    ck = Check("C08", tier, seed)
+    q = ck.quick
+    s = 8 if q else 48
+    # single-asset Env: new limit/market orders and cancels (also of orders created in the same batch)
+    env_gen(ck, "gen_env_new_cancel", kind="env", seeds=s, MaxSubmits=4 if q else 5, MaxBatch=3 if q else 4, MaxSteps=2,
+            need=("schedule_matters", "has_trade", "multi_step", "has_cancel"), timeout=400 if q else 1800)
+    # modifies (several instructions for one order, orders modified in the step that creates them)
+    env_gen(ck, "gen_env_modify", kind="env", seeds=s, Ops=["new", "modify", "step"], Kinds=["L"], Vols=[2], ModPrices=[-1, 10, 11],
+            ModVolsAbs=[-1, 1, 3], MaxSubmits=3 if q else 4, MaxBatch=3, MaxSteps=2 if q else 3, MaxOrders=2,
+            need=("schedule_matters", "has_modify", "has_trade"), timeout=400 if q else 1800)
+    # multi-asset environment, trading toggled
+    env_gen(ck, "gen_menv", kind="menv", seeds=s, Ticks=(1, 2), Ops=["new", "cancel", "step", "disable", "enable"], Kinds=["L"] if q else ["L", "M"],
+            Prices=[10], MaxSubmits=3, MaxBatch=3, MaxSteps=2, MaxOrders=2,
+            need=("schedule_matters", "has_trade", "trading_toggled"), timeout=400 if q else 1800)
+    return ck.finish("model_checking", LEVEL_TEXT, ENV_RULE + "paths whose outcome depends on the schedule",
+                     ("gen_env_new_cancel.schedule_matters", "gen_env_modify.schedule_matters", "gen_menv.schedule_matters"))
+
+
+def c10(tier, seed):
+    ck = Check("C10", tier, seed)
+    q = ck.quick
+    s = 4 if q else 16
+    # submissions that would trade / cancel / re-price at once if applied directly, interleaved with steps
+    env_gen(ck, "gen_env_submit", kind="env", seeds=s, Ops=["new", "cancel", "modify", "step"], Kinds=["L", "M"], ModPrices=[-1, 11],
+            ModVolsAbs=[-1, 1], MaxSubmits=3 if q else 4, MaxBatch=3, MaxSteps=2, MaxOrders=3,
+            need=("submit_after_step", "has_trade", "has_cancel", "has_modify"), timeout=400 if q else 1800)
+    env_gen(ck, "gen_menv_submit", kind="menv", seeds=s, Ticks=(1, 1), Ops=["new", "cancel", "step"], Kinds=["L"], MaxSubmits=3 if q else 4,
+            MaxBatch=3, MaxSteps=2, MaxOrders=2, need=("submit_after_step", "has_trade"), timeout=400 if q else 1800)
+    return ck.finish("model_checking", LEVEL_TEXT, ENV_RULE + "paths ending in a submission made after at least one step",
+                     ("gen_env_submit.submit_after_step", "gen_menv_submit.submit_after_step"))
+
+
+def c11(tier, seed):
+    ck = Check("C11", tier, seed)
+    q = ck.quick
+    s = 4 if q else 16
+    # asymmetric books: bids and asks differ in volume, count and level shape (levels span the alphabet)
+    env_gen(ck, "gen_env_records", kind="env", seeds=s, NLevels=3, Ops=["new", "cancel", "step"], Kinds=["L", "M"], Prices=[10, 11, 12],
+            Vols=[1, 3], MaxSubmits=3 if q else 4, MaxBatch=3, MaxSteps=3, MaxOrders=3,
+            need=("multi_step", "has_trade"), timeout=400 if q else 1800)
+    env_gen(ck, "gen_menv_records", kind="menv", seeds=s, Ticks=(1, 2, 1), NLevels=1, Ops=["new", "step"], Kinds=["L"], Prices=[10, 12],
+            Vols=[1, 2] if not q else [2], MaxSubmits=3, MaxBatch=3, MaxSteps=2, MaxOrders=2, need=("multi_step", "has_trade"), timeout=400 if q else 1800)
+    env_gen(ck, "gen_env_records_l10", kind="env", seeds=s, NLevels=10, Ops=["new", "step"], Kinds=["L"], Prices=[10, 13, 19], Vols=[1, 2],
+            Sides=["B", "A"], MaxSubmits=3, MaxBatch=2, MaxSteps=2, MaxOrders=3, need=("multi_step",), timeout=400 if q else 1800)
+    return ck.finish("model_checking", LEVEL_TEXT, ENV_RULE + "paths with at least two steps",
+                     ("gen_env_records.multi_step", "gen_menv_records.multi_step", "gen_env_records_l10.multi_step"))
+
+
+def c14(tier, seed):
+    ck = Check("C14", tier, seed)
+    q = ck.quick
+    # direct operations on Market<2> with ticks (1, 2): same local ids on both assets
+    mkt_gen(ck, "gen_market2", Ops=["cap", "create", "place", "cancel", "settime", "resettv"], Prices=[10, 11], Kinds=["L"] if q else ["L", "M"],
+            MaxOrders=2, MaxOps=4 if q else 5,
+            need=("ops_on_two_assets", "has_trade", "create_rejected"), timeout=400 if q else 1800)
+    mkt_gen(ck, "gen_market2_modify_toggle", Ops=["cap", "modify", "event", "disable", "enable", "reload"], Kinds=["L"], ModPrices=[-1, 12],
+            ModVolsAbs=[-1, 1], MaxOrders=2, MaxOps=4, trunc_every=200 if q else 20,
+            need=("ops_on_two_assets", "trading_toggled", "op_modify", "op_reload"), timeout=400 if q else 1800)
+    mkt_gen(ck, "gen_market3", Ticks=(2, 1, 3), NLevels=1, Ops=["cap", "cancel"], Kinds=["L"], Prices=[6, 12], Vols=[1, 2], MaxOrders=2,
+            MaxOps=3 if q else 4, need=("ops_on_two_assets", "trades_on_two_assets") if not q else ("ops_on_two_assets",), timeout=400 if q else 1800)
+    # shuffled batches across assets
+    env_gen(ck, "gen_menv_assets", kind="menv", seeds=8 if q else 32, Ticks=(1, 2), Ops=["new", "cancel", "step"], Kinds=["L", "M"], Prices=[10, 12],
+            MaxSubmits=3 if q else 4, MaxBatch=3, MaxSteps=2, MaxOrders=2, need=("schedule_matters", "has_trade"), timeout=400 if q else 1800)
+    return ck.finish("model_checking", LEVEL_TEXT, "histories over 2-3 assets (direct market operations: one TLC state = one history; environment: "
+                     "outcome sets); non-trivial = histories that address at least two assets",
+                     ("gen_market2.ops_on_two_assets", "gen_market2_modify_toggle.ops_on_two_assets", "gen_market3.ops_on_two_assets"))
+
+
+CHECKS = {"C01": c01, "C02": c02, "C03": c03, "C04": c04, "C05": c05, "C06": c06, "C07": c07, "C08": c08, "C10": c10, "C11": c11, "C14": c14, "C12": c12, "C13": c13}
 
 
 def replay(prop, path):
